@@ -17,8 +17,8 @@ func init() {
 	core.Register(&core.Check{
 		ID:    "C13",
 		Level: "fault_enumeration",
-		Rule: "all chains of <=2 (thorough <=3 over a reduced alphabet) steps over a 30-step alphabet (property calls with arguments, operator property calls, user methods, absent and non-callable properties, literal calls returning value/nil, " +
-			"raising each of 10 error kinds explicitly and failing naturally, variable call) x 6 receivers x 11 accessors, plus the chain without any step over 13 receivers (incl. results of earlier try chains, successful and failed, a function, prototypes); each wrapped chain `v.try.s1.s2.acc` is compared with what the outcome of the plain chain `v.s1.s2` (same batch) implies, including the stdout trace (skip after failure); " +
+		Rule: "all chains of <=2 (thorough <=3 over a reduced alphabet) steps over a 33-step alphabet (property calls with arguments, operator property calls, user methods, absent and non-callable properties, literal calls returning value/nil, " +
+			"raising each of 11 error kinds explicitly and failing naturally, variable call) x 6 receivers x 11 accessors, plus the chain without any step over 13 receivers (incl. results of earlier try chains, successful and failed, a function, prototypes); each wrapped chain `v.try.s1.s2.acc` is compared with what the outcome of the plain chain `v.s1.s2` (same batch) implies, including the stdout trace (skip after failure); " +
 			"non-trivial = chain with at least one failing step or an accessor that distinguishes value from error; distinct = distinct (receiver, steps, accessor)",
 		Assumptions: []string{
 			"steps named like the Either API itself (val, err, A, or, ...) are not generated; infix operators applied to the wrapper are not of the form v.try.f and are not generated",
@@ -42,7 +42,7 @@ type step struct {
 	Obj bool   `json:"obj,omitempty"` // only meaningful on the object receiver
 }
 
-var errKinds = []string{"Err", "AssertionErr", "NameErr", "NoPropErr", "NotImplementedErr", "StopIterErr", "SyntaxErr", "TypeErr", "ValueErr", "ZeroDivisionErr"}
+var errKinds = []string{"Err", "AssertionErr", "FileNotFoundErr", "NameErr", "NoPropErr", "NotImplementedErr", "StopIterErr", "SyntaxErr", "TypeErr", "ValueErr", "ZeroDivisionErr"}
 
 func alphabet() []step {
 	a := []step{
@@ -50,6 +50,8 @@ func alphabet() []step {
 		{Src: ".foo", Tag: "absent"}, {Src: ".v", Tag: "noncallable", Obj: true}, {Src: ".bad", Obj: true}, {Src: ".f(7)", Obj: true}, {Src: ".w", Obj: true},
 		{Src: `.{|x| "s".p; x}`}, {Src: `.{|x| "s".p; nil}`}, {Src: `.{|x| "s".p; [x]}`}, {Src: `.{|x| "s".p; 1 / 0}`}, {Src: `.{|x| "s".p; x.nosuch}`}, {Src: ".^idf"},
 		{Src: `.{|x| "s".p; x + 1}`},
+		// a natural failure of a kind no literal raise produces (FileNotFoundErr)
+		{Src: `.{|x| "s".p; import("zz_c13_missing_module")}`},
 		// a literal with several parameters: an array receiver is spread over them
 		{Src: `.{|a, b| "s".p; [b, a]}`, Tag: "multi-param-literal"},
 		// a step that SUCCEEDS and returns an error object (an ordinary value); steps returning Either values are not
@@ -151,6 +153,9 @@ var accessors = []accessor{
 	}},
 	{".err.msg", func(e bool, v, k, m string) (string, string, string) {
 		if e {
+			if strings.Contains(m, `"`) {
+				return "`" + m + "`", "", "" // a str containing a double quote is printed between backquotes
+			}
 			return fmt.Sprintf("%q", m), "", ""
 		}
 		return "", "NoPropErr", "*"
